@@ -353,7 +353,9 @@ HARNESSES = [
     Harness('marker_table_stage', h_marker_stage, setup=_rm_setup,
             cases=[{'vary': ['c0', 'c2', 'c3']},
                    {'vary': ['c3'], 'default_size': 1},
-                   {'vary': [], 'fixed': True, 'thresholds': True}],
+                   {'vary': [], 'fixed': True, 'thresholds': True},
+                   {'vary': [], 'fixed': True, 'wide_genes': 260,
+                    'nproc': 2}],
             thorough_cases=[{}, {'vary': ['c0'], 'thresholds': True}],
             funcs=['markers.find_markers_for_all_taxonomy_pairs',
                    'create_sparse_by_pair_marker_file', '_prep_output_file',
@@ -378,7 +380,9 @@ HARNESSES = [
             cases=[{'vary': ['c0', 'c3'], 'route': 'mask'},
                    {'vary': ['c3'], 'default_size': 1, 'route': 'mask'},
                    {'vary': [], 'fixed': True, 'route': 'mask',
-                    'thresholds': True}],
+                    'thresholds': True},
+                   {'vary': [], 'fixed': True, 'route': 'mask',
+                    'wide_genes': 260, 'nproc': 2}],
             thorough_cases=[{'route': 'mask'},
                             {'vary': ['c0'], 'route': 'mask',
                              'thresholds': True}],
